@@ -75,6 +75,13 @@ SleepInsert(s, wt, f) ==
 #! OPS
          } else if (op[1] = "sleep") {
            call fsleep(op[2] + 1);
+         } else if (op[1] = "sleepsu") {
+           \* fiber_sleep(seconds, useconds): one tick per requested millisecond, plus one
+           call fsleep(op[2] * 1000 + (op[3] \div 1000) + 1);
+         } else if (op[1] = "advance_s") {
+           \* the environment lets op[2] seconds' worth of ticks (and two more) expire at once - a process
+           \* that was stopped, a suspended VM: the poller reads the whole expiration count in one go
+           pendingTicks := pendingTicks + op[2] * 1000 + 2;
 #! MAINT_SPIN
    m5b:  sll.ticket := sll.ticket + 1;
 #! IDLE
@@ -122,9 +129,23 @@ SleepInsert(s, wt, f) ==
            fiber_spinlock_unlock |-> {"maintenance", "wake_sleepers"},
            fiber_poll_events_internal |-> {"mf"}
 #! MONFIELDS
-, ticks |-> 0, sleepat |-> [f \in Fibers |-> 0]
+, ticks |-> 0, sleepat |-> [f \in Fibers |-> 0], advs |-> 0, advat |-> [f \in Fibers |-> 0]
 #! MONCASES
     [] e.op = "sleep" /\ e.ph = "call" -> [m EXCEPT !.sleepat[e.f] = m.ticks]
+    \* fiber_sleep(s, u) with arbitrary arguments.  Durations are compared in milliseconds while they fit
+    \* TLC's integers and in whole seconds beyond (s >= 2000000); advance_s moves virtual time by
+    \* e.n seconds' worth of ticks (each tick stands for TickMs milliseconds of real time).
+    [] e.op = "sleepsu" /\ e.ph = "call" -> [m EXCEPT !.sleepat[e.f] = m.ticks, !.advat[e.f] = m.advs]
+    [] e.op = "sleepsu" /\ e.ph = "ret" ->
+         LET dticks == m.ticks - m.sleepat[e.f] + 1
+             dadv == m.advs - m.advat[e.f] IN
+         IF e.s < 2000000
+         THEN (IF dadv = 0 /\ dticks * TickMs <= e.s * 1000 + (e.u \div 1000)
+               THEN MonBad(m, "sleep returned before the requested duration had elapsed") ELSE m)
+         ELSE (IF (dticks * TickMs) \div 1000 + (dadv + 1) * TickMs + 1 < e.s
+               THEN MonBad(m, "sleep returned before the requested duration had elapsed") ELSE m)
+    [] e.op = "advance_s" /\ e.ph = "call" -> [m EXCEPT !.advs = @ + e.n]
+    [] e.op = "env:tick" -> [m EXCEPT !.ticks = @ + 1]      \* (monitor-only validation; TEnv otherwise)
     \* virtual time: the call happened after tick sleepat, the return before tick ticks+1,
     \* so the fiber was suspended for less than (ticks - sleepat + 1) * TickMs milliseconds
     [] e.op = "sleep" /\ e.ph = "ret" ->
